@@ -1,6 +1,9 @@
 package main
 
 import (
+	"go/token"
+	"time"
+	"go/constant"
 	"fmt"
 	"go/types"
 	"reflect"
@@ -39,6 +42,99 @@ func init() {
 }
 
 func runC09(r *Report) {
+	// a record kept alive by periodic re-registration outlives the gap between two refreshes: the
+	// node-address TTL exceeds the period of the ticker whose loop re-registers the address
+	if pk := r.P.ByPath[Module+"/"+tunPkg]; pk != nil {
+		if c, _ := pk.Types.Scope().Lookup("NodeAddressTTL").(*types.Const); c != nil {
+			ttl, _ := constant.Int64Val(c.Val())
+			n := 0
+			for _, f := range r.P.Funcs {
+				if len(Calls(f, false, "RoutingTable.RegisterNodeAddress")) == 0 {
+					continue
+				}
+				for _, tk := range Calls(f, false, "time:NewTicker") {
+					period, ok := ConstInt(Arg(tk, 0))
+					if !ok {
+						// `refreshInterval := 1 * time.Hour` is folded; anything else is not evaluated
+						continue
+					}
+					n++
+					r.Ob("R-C09-2", CallPos(tk), ttl > period, fmt.Sprintf("node address TTL (%v) is longer than the refresh period (%v): the address never lapses between two refreshes", time.Duration(ttl), time.Duration(period)), r.P.FuncName(f), "ttl-exceeds-refresh")
+				}
+			}
+			if n == 0 {
+				r.Fail("R-C09-2", 0, "the periodic node-address refresh (a ticker loop calling RegisterNodeAddress) was not found", "node-address", "ttl-exceeds-refresh")
+			}
+		}
+	}
+	// polling for a tunnel that is not registered yet backs off to a bounded interval: every value the
+	// loop-carried sleep interval can take is a constant or passed an upper-bound test
+	for _, nm := range []string{"SessionManager.lookupTunnelRouting", "SessionManager.handleLocalBridgeWait"} {
+		f := r.need("R-C09-2", sessPkg, nm)
+		if f == nil {
+			continue
+		}
+		n := 0
+		for _, sl := range Calls(f, false, "time:Sleep", "time:After", "time:NewTimer") {
+			ph, ok := stripValue(Arg(sl, 0)).(*ssa.Phi)
+			if !ok {
+				continue
+			}
+			n++
+			bounded := true
+			var check func(v ssa.Value, from *ssa.BasicBlock, depth int) bool
+			check = func(v ssa.Value, from *ssa.BasicBlock, depth int) bool {
+				if depth > 4 {
+					return false
+				}
+				if _, isC := ConstInt(v); isC {
+					return true
+				}
+				if p2, isP := v.(*ssa.Phi); isP && p2 != ph {
+					for i, e := range p2.Edges {
+						if !check(e, p2.Block().Preds[i], depth+1) {
+							return false
+						}
+					}
+					return true
+				}
+				// an upper bound established on the edge this value arrives on
+				fs := localFacts(from)
+				if len(from.Instrs) > 0 {
+					if iff, isIf := from.Instrs[len(from.Instrs)-1].(*ssa.If); isIf && from.Succs[0] != from.Succs[1] {
+						for si, sb := range from.Succs {
+							if sb == ph.Block() {
+								c, pol := normCond(iff.Cond, si == 0)
+								fs = append(fs, Fact{Cond: c, Pol: pol, If: iff})
+							}
+						}
+					}
+				}
+				for _, ft := range fs {
+					bo, isB := ft.Cond.(*ssa.BinOp)
+					if !isB || stripValue(bo.X) != stripValue(v) {
+						continue
+					}
+					if _, isC := ConstInt(bo.Y); !isC {
+						continue
+					}
+					if (bo.Op == token.GTR && !ft.Pol) || (bo.Op == token.GEQ && !ft.Pol) || (bo.Op == token.LEQ && ft.Pol) || (bo.Op == token.LSS && ft.Pol) {
+						return true
+					}
+				}
+				return false
+			}
+			for i, e := range ph.Edges {
+				if !check(e, ph.Block().Preds[i], 0) {
+					bounded = false
+				}
+			}
+			r.Ob("R-C09-2", CallPos(sl), bounded, "the polling interval is bounded above on every path into the loop (a constant, or a value that passed `interval > max` as false); an unbounded back-off sleeps through the moment the tunnel is registered", nm, "bounded-backoff")
+		}
+		if n == 0 {
+			r.Fail("R-C09-2", f.Pos(), "no loop-carried polling interval found", nm, "bounded-backoff")
+		}
+	}
 	// the in-memory backend installs the new deadline when a record is written again (R-C09-2:
 	// a re-registered waiting tunnel lives for its ttl from the last registration)
 	checkValueExpiryTogether(r, "R-C09-2")
